@@ -174,7 +174,7 @@ Record xsim := mkX { x_sim : sim; x_mdl : mdl }.
 Definition sspec : Type := list (nat * skind * nat).     (* key, kind, data stream *)
 Record xprog := mkXProg { xp_stats : sspec; xp_prog : program }.
 
-Inductive xres := XOk | XRefused | XAlreadyRegistered.
+Inductive xres := XOk | XRefused | XAlreadyRegistered | XRaised.   (* XRaised: construct_model raised, initialize aborted *)
 
 Definition x0 (st : strategy) : xsim := mkX (init_sim st) (mkMdl [] []).
 
@@ -222,7 +222,8 @@ Definition x_init (clr : bool) (xp : xprog) (x : xsim) (r : repl) : xsim * xres 
     let n := length (obs s) in
     let m0 := mkMdl (if clr then [] else m_map (x_mdl x)) (map (cut_obj n) (m_objs (x_mdl x))) in
     let '(m1, ok) := build_stats n (xp_stats xp) m0 in
-    if ok then (mkX (fst (do_init (xp_prog xp) s r)) m1, XOk)
+    if ok then (mkX (fst (do_init (xp_prog xp) s r)) m1,
+                match snd (do_init (xp_prog xp) s r) with ResRaised => XRaised | _ => XOk end)
     else (mkX s m1, XAlreadyRegistered).
 
 Definition x_cmd (fuel : nat) (xp : xprog) (x : xsim) (c : cmd) : xsim :=
@@ -320,7 +321,7 @@ Definition x_cmd_res (fuel : nat) (xp : xprog) (x : xsim) (c : cmd) : xsim * cre
   match c with
   | CInit r =>
       let '(x', res) := x_init true xp x r in
-      (x', match res with XOk => ResOk | _ => ResRefused end,
+      (x', match res with XOk => ResOk | XRaised => ResRaised | _ => ResRefused end,
        match res with XAlreadyRegistered => true | _ => false end)
   | _ => let '(s', res) := do_cmd fuel (xp_prog xp) (x_sim x) c in (mkX s' (x_mdl x), res, false)
   end.
